@@ -12,7 +12,7 @@ from flipjump.fjm import fjm_reader
 from flipjump.interpreter.debugging.user_queries import ask_for_command, show_message
 from flipjump.utils.classes import RunStatistics
 from flipjump.utils.constants import MACRO_SEPARATOR_STRING
-from flipjump.utils.exceptions import FlipJumpException
+from flipjump.utils.exceptions import FlipJumpException, FlipJumpRuntimeMemoryException
 from flipjump.utils.functions import load_debugging_labels
 
 
@@ -216,9 +216,20 @@ class BreakpointHandler:
         @return the message box body for the debug-action query, for the current ip.
         """
         address = self.get_address_str(ip)
-        flip = self.get_address_str(mem.get_word(ip))
-        jump = self.get_address_str(mem.get_word(ip + mem.memory_width))
+        flip = self._get_word_str(ip, mem)
+        jump = self._get_word_str(ip + mem.memory_width, mem)
         return f'Address {address}.\n\n{op_counter} ops executed.\n\nflip {flip}.\n\njump {jump}.'
+
+    def _get_word_str(self, address: int, mem: fjm_reader.Reader) -> str:
+        """
+        @return: the get_address_str of the memory-word at the given address - or a placeholder if it can't be read.
+        The pause happens before the op is executed, so it must not raise the op's memory-error by itself:
+        the op has to run (and fail) in its regular order, exactly like in an undebugged run.
+        """
+        try:
+            return self.get_address_str(mem.get_word(address))
+        except FlipJumpRuntimeMemoryException:
+            return '<unreadable - outside of the defined memory>'
 
     def handle_read_memory(self, target: str, mem: fjm_reader.Reader) -> None:
         """
